@@ -170,9 +170,9 @@ func (fg *FuncGen) exec(in ssa.Instruction) {
 		fg.oblige("safe:panic", txt, "false", nil, "")
 	case *ssa.If, *ssa.Jump:
 	case *ssa.MakeClosure:
-		fg.note("closure %s treated as an opaque function value", x.Fn.Name())
 		r := fg.newRef(st)
 		fg.vals[x] = Val{T: r, Typ: x.Type()}
+		fg.closures[x] = x
 	case *ssa.Go, *ssa.Send, *ssa.Select, *ssa.MakeChan:
 		fg.taint("concurrency instruction %T", in)
 		if v, ok := in.(ssa.Value); ok {
